@@ -1,3 +1,100 @@
-From PD Require Import Model.Tracking Proofs.C07.
-Theorem C07_stub : True. Proof. exact stub_C07. Qed.
-Print Assumptions C07_stub.
+(* C07 -- tracks follow droplet identity: property theorems only.
+   Model: Model/Tracking.v.  ov a b = a.overlaps(b, grid=grid) (a = last droplet of a track);
+   D a b = the cdist entry for a (previous frame) and b (current frame); Wc D md a b = that distance, or
+   None (inf) beyond the cut-off md (None = no cut-off).
+   linked trs a b : b directly follows a in some track;  starts trs b : b is the first droplet of a
+   track;  ends trs a : a is the last droplet of a track. *)
+From Coq Require Import List Arith QArith Sorted.
+Import ListNotations.
+From PD Require Import Model.Tracking Model.Grid Proofs.Tracking Proofs.TrackingDist Proofs.C06 Proofs.C07
+  Proofs.TrackingMetric.
+Local Open Scope nat_scope.
+
+(* overlap method: consecutive droplets of a track always overlap *)
+Theorem C07_ov_consecutive_overlap : forall ov frames trs,
+  track_all (MOverlap ov) frames = Ok trs -> forall a b, linked trs a b -> ov a b = true.
+Proof. exact c07_ov_consecutive_overlap. Qed.
+Print Assumptions C07_ov_consecutive_overlap.
+
+(* a droplet overlapping no droplet of the previous frame (nor an earlier droplet of its own frame)
+   starts a new track *)
+Theorem C07_ov_new_if_no_overlap : forall ov frames trs,
+  StronglySorted Qlt (map fst frames) -> track_all (MOverlap ov) frames = Ok trs ->
+  forall b, In b (all_ids frames) ->
+    (forall a, In a (all_ids frames) -> fst a + 1 = fst b -> ov a b = false) ->
+    (forall j0, j0 < snd b -> ov (fst b, j0) b = false) ->
+    starts trs b.
+Proof. exact c07_ov_new_if_no_overlap. Qed.
+Print Assumptions C07_ov_new_if_no_overlap.
+
+(* when the overlap relation between frames f and f+1 is one-to-one, the links into frame f+1 are
+   exactly that relation *)
+Theorem C07_ov_follows_bijection : forall ov frames trs f t0 n0 t1 n1,
+  StronglySorted Qlt (map fst frames) -> inframe_ok ov frames ->
+  track_all (MOverlap ov) frames = Ok trs ->
+  nth_error frames f = Some (t0, n0) -> nth_error frames (S f) = Some (t1, n1) ->
+  one_to_one ov (frame_ids f n0) (frame_ids (S f) n1) ->
+  forall a b, fst b = S f ->
+              (linked trs a b <-> In a (frame_ids f n0) /\ In b (frame_ids (S f) n1) /\ ov a b = true).
+Proof. exact c07_ov_follows_bijection. Qed.
+Print Assumptions C07_ov_follows_bijection.
+
+(* distance method: linked droplets are never farther apart than the cut-off *)
+Theorem C07_dist_links_within_cutoff : forall D md frames trs,
+  track_all (MDistance D md) frames = Ok trs ->
+  forall a b, linked trs a b -> Wc D md a b = Some (D a b) /\ forall m, md = Some m -> (D a b <= m)%Q.
+Proof. exact c07_dist_links_within_cutoff. Qed.
+Print Assumptions C07_dist_links_within_cutoff.
+
+(* no track ends in a frame in which a new track starts within the cut-off of it *)
+Theorem C07_dist_maximal : forall D md frames trs,
+  StronglySorted Qlt (map fst frames) -> track_all (MDistance D md) frames = Ok trs ->
+  forall a b, ends trs a -> starts trs b -> fst a + 1 = fst b ->
+              exists m, md = Some m /\ (m < D a b)%Q.
+Proof. exact c07_dist_maximal. Qed.
+Print Assumptions C07_dist_maximal.
+
+(* the links into frame f+1 are obtained by repeatedly joining the closest remaining pair ... *)
+Theorem C07_dist_greedy_exists : forall D md frames trs f t0 n0 t1 n1,
+  StronglySorted Qlt (map fst frames) -> track_all (MDistance D md) frames = Ok trs ->
+  nth_error frames f = Some (t0, n0) -> nth_error frames (S f) = Some (t1, n1) ->
+  exists L, closest_first (Wc D md) (frame_ids f n0) (frame_ids (S f) n1) [] [] L /\
+            forall a b, fst b = S f -> (linked trs a b <-> In (a, b) L).
+Proof. exact c07_dist_greedy_exists. Qed.
+Print Assumptions C07_dist_greedy_exists.
+
+(* ... and when all distances are distinct that matching is unique, so the links are exactly it *)
+Theorem C07_dist_greedy_spec : forall D md frames trs f t0 n0 t1 n1,
+  StronglySorted Qlt (map fst frames) -> track_all (MDistance D md) frames = Ok trs ->
+  nth_error frames f = Some (t0, n0) -> nth_error frames (S f) = Some (t1, n1) ->
+  distinct_weights (Wc D md) (frame_ids f n0) (frame_ids (S f) n1) ->
+  forall L, closest_first (Wc D md) (frame_ids f n0) (frame_ids (S f) n1) [] [] L ->
+            forall a b, fst b = S f -> (linked trs a b <-> In (a, b) L).
+Proof. exact c07_dist_greedy_spec. Qed.
+Print Assumptions C07_dist_greedy_spec.
+
+(* the periodic metric (Model/Grid.v, as py-pde computes it) does not change when a point is moved
+   by one period *)
+Theorem C07_wrap_period_invariant : forall L d, ~ (L == 0)%Q -> (wrap1 L (d + L) == wrap1 L d)%Q.
+Proof. exact wrap1_plus_period. Qed.
+Print Assumptions C07_wrap_period_invariant.
+
+Theorem C07_pdist_shift_invariant : forall a p q,
+  aper a = true -> ~ (asize a == 0)%Q -> (dist2 [a] [p] [q + asize a] == dist2 [a] [p] [q])%Q.
+Proof. exact pdist_shift_invariant_1d. Qed.
+Print Assumptions C07_pdist_shift_invariant.
+
+(* non-vacuity: two frames with two droplets each that swap places; the overlap relation is
+   one-to-one, all four distances are different *)
+Example C07_nonvacuous :
+  StronglySorted Qlt (map fst ex7_frames) /\ inframe_ok ex7_ov ex7_frames /\
+  one_to_one ex7_ov (frame_ids 0 2) (frame_ids 1 2) /\
+  track_all (MOverlap ex7_ov) ex7_frames
+  = Ok [([(0%Q, (0, 0))], (1%Q, (1, 1))); ([(0%Q, (0, 1))], (1%Q, (1, 0)))] /\
+  distinct_weights (Wc ex7_D (Some 4%Q)) (frame_ids 0 2) (frame_ids 1 2) /\
+  track_all (MDistance ex7_D (Some 4%Q)) ex7_frames
+  = Ok [([(0%Q, (0, 0))], (1%Q, (1, 0))); ([(0%Q, (0, 1))], (1%Q, (1, 1)))].
+Proof.
+  exact (conj ex7_sorted (conj ex7_inframe (conj ex7_one_to_one (conj ex7_ov_result
+        (conj ex7_distinct ex7_dist_result))))).
+Qed.
